@@ -264,6 +264,30 @@ Theorem C10_recolour : forall sf ready tcm scm,
   (tc sf = true \/ ready = false -> recolour sf ready tcm scm = tcm).
 Proof. exact recolour_spec. Qed.
 
+(* rfbNewFramebuffer with a connected client: the new server format is the one rfbInitServerFormat builds;
+   either it is identical to the old one (field by field, flags included) and nothing needs to change, or
+   rfbSetTranslateFunction is re-run for the client against the new format -- in particular when only the
+   trueColour flag differs (colour-mapped 8-bit server replaced by a true-colour one).  The formats it
+   establishes are in the supported domain and in host byte order, so C10_rule applies afterwards. *)
+Theorem C10_newfb : forall econ sf bytespp bps cfe,
+  fst (new_framebuffer econ sf bytespp bps cfe) = init_server_format bytespp bps /\
+  ((snd (new_framebuffer econ sf bytespp bps cfe) = None /\ init_server_format bytespp bps = sf) \/
+   (snd (new_framebuffer econ sf bytespp bps cfe) = Some (set_translate econ (init_server_format bytespp bps) cfe) /\
+    init_server_format bytespp bps <> sf)).
+Proof. exact new_framebuffer_spec. Qed.
+
+Theorem C10_newfb_format_supported : forall bytespp bps,
+  (bytespp = 1 \/ bytespp = 2 \/ bytespp = 3 \/ bytespp = 4) -> 1 <= bps <= 16 ->
+  (bytespp <> 1 -> 3 * bps <= 8 * bytespp) ->
+  server_ok (init_server_format bytespp bps) /\ be (init_server_format bytespp bps) = false.
+Proof. exact init_server_format_ok. Qed.
+
+Example C10_newfb_nonvacuous :
+  snd (new_framebuffer false (mkfmt 8 8 false false 7 7 3 0 3 6) 1 8 (f_rgb888 false)) =
+    Some (SetupOk (f_rgb888 false) SSingleTC []) /\
+  snd (new_framebuffer false (init_server_format 4 8) 4 8 (f_rgb565 false)) = None.
+Proof. exact new_framebuffer_nonvacuous. Qed.
+
 (* translator tie of the byte-swap macros: the model's swaps reproduce the values obtained by
    compiling Swap16 / Swap32 of rfb.h on probes with pairwise distinct bytes *)
 Theorem C10_swap_macros_tied : swap16 258 = c10_swap16_probe /\ swap32 16909060 = c10_swap32_probe.
